@@ -673,6 +673,23 @@ def main():
             print("note: known finding %s no longer fails (obligation discharged)" % ob)
 
     discharged = [o for o in obs if o not in failed]
+    # where each verified function's text comes from (template file of which unit / shared prelude / spec)
+    origins = [(m.start(), m.group(1)) for m in re.finditer(r"(?m)^//@@origin (\S+)$", text)]
+    def origin_of(pos):
+        cur = "units/%s/unit.rs" % unit
+        for off, o in origins:
+            if off <= pos:
+                cur = o
+            else:
+                break
+        mm = re.match(r"units/([^/]+)/", cur)
+        return mm.group(1) if mm else cur.split("/")[0]
+    by_origin = {}
+    for f in fns:
+        if f.mode == "spec" or f.external or f.canary or f.body is None:
+            continue
+        n = len(f.ensures) + len(f.invariants) + 1
+        by_origin[origin_of(f.start)] = by_origin.get(origin_of(f.start), 0) + n
     trusted = scan_trusted(text, fns)
     trusted += meta.get("trusted_notes", [])
     samples = []
@@ -704,6 +721,8 @@ def main():
             undecided_subclaims=meta.get("undecided_subclaims", []),
             bounded=bounded_info,
             baseline_obligations=len(baseline),
+            obligations_by_origin=by_origin,
+            obligations_note="obligations counts every ensures / loop-invariant / body obligation of the generated file; obligations_by_origin says how many belong to this unit's own files and how many are lemmas of imported units / shared spec files re-checked here",
             failing_obligations=sorted(failed.keys()),
         ),
         assumptions=meta.get("assumptions", []) + ["every entry of coverage.trusted_base"],
